@@ -122,7 +122,9 @@ def _setup(ctx, state):
     state["grid_b"] = AtomGrid(rg, degrees=[g["deg"]], center=c, rotate=g["rotate"] + 17)
     state["tf"] = InverseRTransform(tf)
     state["center"] = c
-    state["pts"] = c + np.random.RandomState(g["pseed"]).uniform(-2.0, 2.0, size=(12, 3))
+    state["pts0"] = c + np.random.RandomState(g["pseed"]).uniform(-2.0, 2.0, size=(12, 3))  # oracle's own copy
+    state["pts"] = state["pts0"].copy()  # the caller's evaluation points: ONE array handed to every returned potential
+    state["rho"] = {}  # the caller's density arrays: built once per density, handed to every solve
     # ONE options dict, reused by every BVP call of the run - and by the IVP calls too when it starts out
     # empty (tol 1e-6 is the solver's own default), which is what a caller with no special options does
     # (non-empty dicts also carry a mesh cap - 5x the largest mesh ever needed inside the envelope - so that a solve
@@ -149,11 +151,14 @@ def _op_solve(ctx, op, state):
     if o.get("grid_b"):
         ctx.probes.hit("solve-on-second-grid-object")
     spec = _dens_spec(ctx, which)
-    rho = _density(spec, g.points, c)
+    rk0 = (which, bool(o.get("grid_b")))
+    if rk0 not in state["rho"]:
+        state["rho"][rk0] = _density(spec, g.points, c)
+    rho = state["rho"][rk0]
     ctx.rng.set_behaviour(beh, bseed)
     calls0 = ctx.rng.calls
     params = state["params"] if o.get("shared_params", True) else dict(state["params0"])
-    oc = _outcome(lambda: solve_poisson_bvp(g, rho, state["tf"], ode_params=params)(pts.copy()))
+    oc = _outcome(lambda: solve_poisson_bvp(g, rho, state["tf"], ode_params=params)(pts))
     sig = which
     if oc[0] == "raise":
         ctx.violate("bvp-raise", "solve", f"{sig}:{type(oc[1]).__name__}", f"solve_poisson_bvp raised {oc[1]!r} (density {which}, rng draw {beh}:{bseed}, grid {ctx.spec['grid']})")
@@ -163,7 +168,7 @@ def _op_solve(ctx, op, state):
     if ndraw:
         ctx.probes.hit("radial-solves-started-from-seam-draw", ndraw)
         ctx.states.add(f"{which}:{beh}")
-    ex = _potential(spec, pts, c)
+    ex = _potential(spec, state["pts0"], c)
     scale = max(1.0, float(np.max(np.abs(ex))))
     acc = float(np.max(np.abs(v - ex))) / scale
     ctx.stats["acc"] = max(ctx.stats["acc"], acc)
@@ -214,11 +219,11 @@ def _op_ivp(ctx, op, state):
         ctx.probes.hit("one-options-dict-shared-by-bvp-and-ivp")
     else:
         state["ivp_params"] = state.get("ivp_params", {})
-    oc = _outcome(lambda: solve_poisson_ivp(g, rho, state["tf"], r_interval=(500.0, 1e-3), ode_params=state["ivp_params"])(pts.copy()))
+    oc = _outcome(lambda: solve_poisson_ivp(g, rho, state["tf"], r_interval=(500.0, 1e-3), ode_params=state["ivp_params"])(pts))
     if oc[0] == "raise":
         ctx.violate("ivp-raise", "ivp", type(oc[1]).__name__, f"solve_poisson_ivp raised {oc[1]!r} on the shared grid / options")
         return
-    ex = _potential(spec, pts, c)
+    ex = _potential(spec, state["pts0"], c)
     acc = float(np.max(np.abs(oc[1] - ex))) / max(1.0, float(np.max(np.abs(ex))))
     if not np.isfinite(acc) or acc > ACC_BOUND:
         ctx.violate("accuracy", "ivp", which, f"IVP potential off by {acc:.3g}")
@@ -242,12 +247,15 @@ def _op_robust(ctx, op, state):
     core = _core_spec(z)
     smooth = ctx.spec["dens"]["rho1"] if kind == "core+smooth" else []
     spec = core + [t for t in smooth if t[0] == "s"]
-    rho = _density(spec, g.points, c)
+    rkey = ("robust", kind, z)
+    if rkey not in state["rho"]:
+        state["rho"][rkey] = _density(spec, g.points, c)
+    rho = state["rho"][rkey]
     ctx.rng.set_behaviour(beh, bseed)
     had_fault = ctx.store.active()
     mark = len(ctx.store.fired_log)
     kw = {"ode_params": state["params"]} if o.get("shared_params", True) else {}
-    oc = _outcome(lambda: solve_poisson_robust(g, rho, state["tf"], np.array([z]), c[None, :].copy(), split2=bool(o.get("split2")), **kw)(pts.copy()))
+    oc = _outcome(lambda: solve_poisson_robust(g, rho, state["tf"], np.array([z]), c[None, :].copy(), split2=bool(o.get("split2")), **kw)(pts))
     fired = len(ctx.store.fired_log) > mark
     sig = f"{kind}:{z}"
     if oc[0] == "raise":
@@ -259,7 +267,7 @@ def _op_robust(ctx, op, state):
         ctx.violate("robust-raise", "robust", f"{sig}:{type(oc[1]).__name__}", f"solve_poisson_robust raised {oc[1]!r} with no fault active")
         return
     v = np.asarray(oc[1], dtype=float)
-    ex = _potential(spec, pts, c)
+    ex = _potential(spec, state["pts0"], c)
     scale = max(1.0, float(np.max(np.abs(ex))))
     err = float(np.max(np.abs(v - ex))) / scale
     if kind == "core" and not o.get("split2"):
@@ -280,7 +288,7 @@ def _op_robust(ctx, op, state):
     state["results"][rk] = v
     if kind == "core+smooth" and "rho1" in state["results"] and all(t[0] == "s" for t in ctx.spec["dens"]["rho1"]):
         # robust = analytic core + numerical residual: agrees with the plain solver on the smooth part
-        d = float(np.max(np.abs(v - _potential(core, pts, c) - state["results"]["rho1"]))) / scale
+        d = float(np.max(np.abs(v - _potential(core, state["pts0"], c) - state["results"]["rho1"]))) / scale
         ctx.probes.hit("robust-vs-plain-compared")
         if d > 10 * LIN_FACTOR * ctx.spec["grid"]["tol"]:
             ctx.violate("robust-vs-plain", "robust", sig, f"robust(core+smooth) - core_analytic - plain(smooth) = {d:.3g}")
@@ -437,6 +445,8 @@ class PoissonSeamEngine:
                 ctx.step += 1
                 OPS[op[0]](ctx, op, state)
             # the caller's one options dict must still be what the caller put there
+            if not np.array_equal(state["pts"], state["pts0"]):
+                ctx.violate("points-changed", "final", "points", "the evaluation-point array handed to the returned potentials was modified (later answers were computed at other points)")
             if state["params"] != state["params0"]:
                 ctx.violate("options-changed", "final", "ode_params", f"the shared options dict became {state['params']}")
 
